@@ -866,8 +866,19 @@ def _rbe_case(sh, n2p, pd, np, cs, i):
     nd_rows = [k for k, p in enumerate(ddpairs) if p not in mpairs]
     im_cols = [k for k, p in enumerate(ipairs) if p in mpairs]
     if nd_rows and im_cols:
-        Cb = R0[np.ix_(nd_rows, im_cols)]
-        cnd = float(np.linalg.cond(Cb)) if Cb.shape[0] == Cb.shape[1] else float("inf")
+        # in consistent units (rotational rows x Lc, rotational columns / Lc); the pivot
+        # block is judged against the size of the rows it is taken from, so that a 1x1
+        # block holding a structural zero (cond == 1 by definition) counts as singular
+        ur = np.array([1.0 if d <= 3 else Lc for _, d in ddpairs])
+        uc = np.array([1.0 if d <= 3 else 1.0 / Lc for _, d in ipairs])
+        Rs = R0 * np.outer(ur, uc)
+        Cb = Rs[np.ix_(nd_rows, im_cols)]
+        if Cb.shape[0] == Cb.shape[1]:
+            smin = float(np.linalg.svd(Cb, compute_uv=False).min())
+            big = float(np.abs(Rs[nd_rows]).max())
+            cnd = big / smin if smin > 0 else float("inf")
+        else:
+            cnd = float("inf")
     else:
         cnd = 1.0
     if not (cnd < 1e3):
